@@ -5,7 +5,7 @@
 (* boundary cases; the driver replays them through the real packages and   *)
 (* B1TTrace judges the results.                                            *)
 (***************************************************************************)
-EXTENDS B1T, Json, SequencesExt
+EXTENDS B1T, Json
 
 VARIABLE x
 
@@ -13,9 +13,6 @@ TryteChars == {57} \cup (65..90)
 
 Rec(op, key, v) == [op |-> op, in |-> [k \in {key} |-> v]]
 
-G6 == SetToSeq([1..6 -> Trit])
-G8 == SetToSeq([1..8 -> Trit])
-TP == SetToSeq([1..2 -> TryteChars])
 
 Bytes1 == [b \in 1..256 |-> <<b - 1>>]
 
@@ -32,17 +29,14 @@ Multi8 == { Valid8 \o Valid8 \o SubSeq(Valid8, 1, r) : r \in 0..7 }
           \cup { Valid8 \o Invalid8 \o Valid8 \o SubSeq(Valid8, 1, r) : r \in 0..7 }
           \cup { Invalid8 \o SubSeq(Invalid8, 1, r) : r \in 0..7 }
 
-M6 == SetToSeq(Multi6)
-M8 == SetToSeq(Multi8)
-
 Vectors ==
      [i \in 1..256 |-> Rec("b1t6.Encode", "bytes", Bytes1[i])]
   \o [i \in 1..256 |-> Rec("b1t8.Encode", "bytes", Bytes1[i])]
-  \o [i \in 1..Len(G6) |-> Rec("b1t6.Decode", "trits", G6[i])]
-  \o [i \in 1..Len(G8) |-> Rec("b1t8.Decode", "trits", G8[i])]
-  \o [i \in 1..Len(TP) |-> Rec("b1t6.DecodeTrytes", "trytes", TP[i])]
-  \o [i \in 1..Len(M6) |-> Rec("b1t6.Decode", "trits", M6[i])]
-  \o [i \in 1..Len(M8) |-> Rec("b1t8.Decode", "trits", M8[i])]
+  \o SetToSeq({Rec("b1t6.Decode", "trits", g) : g \in [1..6 -> Trit]})
+  \o SetToSeq({Rec("b1t8.Decode", "trits", g) : g \in [1..8 -> Trit]})
+  \o SetToSeq({Rec("b1t6.DecodeTrytes", "trytes", g) : g \in [1..2 -> TryteChars]})
+  \o SetToSeq({Rec("b1t6.Decode", "trits", g) : g \in Multi6})
+  \o SetToSeq({Rec("b1t8.Decode", "trits", g) : g \in Multi8})
   \o <<Rec("b1t6.Encode", "bytes", [i \in 1..256 |-> i - 1]),
        Rec("b1t8.Encode", "bytes", [i \in 1..256 |-> i - 1]),
        Rec("b1t6.Encode", "bytes", <<>>), Rec("b1t8.Encode", "bytes", <<>>),
